@@ -181,6 +181,9 @@ class Module:
         from . import alpha
         self.tree = alpha.normalise_shape(self.tree)
         self.alpha_renames = alpha.normalise(self.tree, name)
+        self.alpha_inlined = alpha.inline_new_temps(self.tree, name)
+        self.alpha_reordered = alpha.restore_operand_order(self.tree, name)
+        self.alpha_attr_renames = alpha.normalise_attrs(self.tree, name)
         self.bindings = {}  # name -> ('import', dotted) | ('func', F) | ('class', C) | ('assign', node)
         self.functions = {}
         self.classes = {}
